@@ -63,6 +63,15 @@ def replay_ext(d):
     exts = [e for e in K.discover_ext() if e["crate"] == d["crate"]]
     if not exts:
         raise Undecided("ext crate %s not found" % d["crate"])
+    if d.get("probe"):
+        prs = [q for q in exts[0].get("probes", []) if q["name"] == d["probe"]]
+        if not prs:
+            raise Undecided("probe %s not found" % d["probe"])
+        r = K.run_ext_probes(exts[0], prs)[d["probe"]]
+        print("re-compiled probe %s: %s" % (d["probe"], "rejected by rustc (obligation holds)" if r["rejected"] else "COMPILES: safe code can write this expression"))
+        for e in r["errors"]:
+            print("  " + e)
+        return 0 if r["rejected"] else 1
     cdir = K.prepare_ext_crate(exts[0])
     if d.get("compile_error"):
         blame = K.expansion_blame(cdir)
